@@ -1534,6 +1534,49 @@ def soundness(snap: list[dict]) -> list[tuple[str, str]]:
     return bad
 
 
+ODD_VECTORS = [(1025, -131), (-4097, 2055), (16385, -8195), (65537, 32771), (-131073, 65539), (98765, -43211), (-99991, 31337), (12345, 67891)]
+
+
+def inexact_vectors(ctx: Ctx, rng, base: list[dict]) -> list[tuple[int, int]]:
+    """translation vectors chosen to expose rounding: corners of edge-carrying boxes onto the origin, large odd offsets"""
+    by = {e["uuid"]: e for e in base if e["t"] == "box"}
+    carriers = {u for e in base if e["t"] == "edge" and not e["hidden"] for u in (e["src"], e["tgt"]) if u in by}
+    if not carriers:
+        return []
+    vs: list[tuple[int, int]] = []
+    for u in sorted(carriers):
+        b = by[u]
+        for cx, cy in (((0, 0), (1, 1), (0, 1), (1, 0)) if ctx.thorough else ((0, 0), (1, 1))):
+            x, y = b["pos"][0] + cx * b["size"][0], b["pos"][1] + cy * b["size"][1]
+            if x == int(x) and y == int(y) and (-int(x), -int(y)) not in vs:
+                vs.append((-int(x), -int(y)))
+    vs += ODD_VECTORS[:2] + rng.sample(ODD_VECTORS[2:], ctx.pick(1, 4))
+    return vs
+
+
+def translated_parse(out: Outcome, rig, diagram, model, d, rel, where, lcs, base, v) -> None:
+    """parse with the stored layout translated by `v`; judge equivariance against `base` and soundness"""
+    with shifted(lcs, *v):
+        try:
+            moved = snapshot(diagram, rig.parse(model, d))
+        except Exception as e:
+            out.find(f"parse_diagram|translated|raises|{type(e).__name__}", f"{rel} {d.name!r} translated by {v}: {type(e).__name__}: {e}",
+                     {"kind": "translate", **where, "v": list(v)})
+            return
+    problem = None
+    if len(moved) != len(base):
+        problem = f"{len(base) - 1} elements became {len(moved) - 1}"
+    else:
+        for a, b in zip(base, moved):
+            problem = diff_elements(a, b, v)
+            if problem:
+                break
+    if problem:
+        out.find("parse_diagram|translated|not-equivariant", f"{rel} {d.name!r} translated by {v}: {problem}", {"kind": "translate", **where, "v": list(v)})
+    for sig, what in soundness(moved):
+        out.find(sig, f"{rel} {d.name!r} translated by {v}: {what}", {"kind": "sound", **where, "v": list(v)})
+
+
 def parser_run(ctx: Ctx, out: Outcome) -> None:
     rig = ParserRig()
     diagram = rig.diagram
@@ -1571,35 +1614,28 @@ def parser_run(ctx: Ctx, out: Outcome) -> None:
             nontrivial = any(e["t"] == "edge" or e.get("parent") for e in base)
             for sig, what in soundness(base):
                 out.find(sig, f"{rel} {d.name!r}: {what}", {"kind": "sound", **where, "v": [0, 0]})
+            tops = rig.top_nodes(td)
+            lcs = [lc for _, lc in tops]
+            # --- rounding-directed translations (all models, both tiers; this is the cheap form of the random sweep of
+            # the thorough tier that found 47523e4).  An edge end stored on the border of its box is computed as
+            # `bounds.pos + bounds.size @ anchor + rel`: the rounding error of the product is absorbed when the sum is large
+            # and exposed when the sum is small, so (i) every corner of every box that carries a visible edge end is moved
+            # onto the origin once (top-left and bottom-right corner; thorough: all four), and (ii) a few large odd vectors
+            # (2^k + 1: the sums change their binade, the border coordinate is no longer exactly representable relative to
+            # the products) are applied.  Judged like every other translation: equivariance within PTOL + soundness.
+            for v in inexact_vectors(ctx, rng, base):
+                stats["inexact_translations"] = stats.get("inexact_translations", 0) + 1
+                out.case(("translate-inexact", rel, d.uuid, v), {"stream": "parser.translate-inexact", **where, "v": list(v)} if stats["inexact_translations"] == 1 else None, nontrivial)
+                translated_parse(out, rig, diagram, model, d, rel, where, lcs, base, v)
             if rel in light:
                 out.case(("parse", rel, d.uuid), None, nontrivial)
                 continue
-            tops = rig.top_nodes(td)
             ends = rig.edge_ends(td)
-            lcs = [lc for _, lc in tops]
             vecs = vectors_fixed[: ctx.pick(3, 5)] + [(rng.randint(-10000, 10000), rng.randint(-10000, 10000)) for _ in range(ctx.pick(3, 15))]
             for v in vecs:
                 stats["translations"] += 1
                 out.case(("translate", rel, d.uuid, v), {"stream": "parser.translate", **where, "v": list(v)} if stats["translations"] == 1 else None, nontrivial)
-                with shifted(lcs, *v):
-                    try:
-                        moved = snapshot(diagram, rig.parse(model, d))
-                    except Exception as e:
-                        out.find(f"parse_diagram|translated|raises|{type(e).__name__}", f"{rel} {d.name!r} translated by {v}: {type(e).__name__}: {e}",
-                                 {"kind": "translate", **where, "v": list(v)})
-                        continue
-                problem = None
-                if len(moved) != len(base):
-                    problem = f"{len(base) - 1} elements became {len(moved) - 1}"
-                else:
-                    for a, b in zip(base, moved):
-                        problem = diff_elements(a, b, v)
-                        if problem:
-                            break
-                if problem:
-                    out.find("parse_diagram|translated|not-equivariant", f"{rel} {d.name!r} translated by {v}: {problem}", {"kind": "translate", **where, "v": list(v)})
-                for sig, what in soundness(moved):
-                    out.find(sig, f"{rel} {d.name!r} translated by {v}: {what}", {"kind": "sound", **where, "v": list(v)})
+                translated_parse(out, rig, diagram, model, d, rel, where, lcs, base, v)
             # move one top-level node
             if len(tops) >= 1:
                 order = list(range(len(tops)))
